@@ -111,6 +111,9 @@ class Ctx:
         self.max_steps = max_steps
         self.assumptions: List[Any] = []  # every constraint of the path, in order
         self.notes: dict = {}
+        self.decided: dict = {}  # ast id of a decided condition -> outcome
+        self._keep: List[Any] = []  # keeps those terms alive so that ids stay unique
+        self.implied = 0
         self.pins: List[Any] = []  # (symbol, numeral) for symbols realised on this path
         self.pinned: dict = {}
 
@@ -166,6 +169,10 @@ class Ctx:
             return True
         if z3.is_false(cond):
             return False
+        # a condition already decided on this path (same term) needs neither a query nor a decision
+        known = self.decided.get(cond.get_id())
+        if known is not None:
+            return known
         self._tick()
         if self.pos < len(self.prefix):
             d = self.prefix[self.pos]
@@ -173,6 +180,8 @@ class Ctx:
                 raise Unsupported("non-deterministic re-execution (expected branch decision)")
             self.pos += 1
             self.add(cond if d else z3.Not(cond))
+            self.decided[cond.get_id()] = d
+            self._keep.append(cond)
             return d
         m = self.ensure_model()
         d0 = z3.is_true(m.eval(cond, model_completion=True))
@@ -187,8 +196,12 @@ class Ctx:
             self.pending.append(self.prefix + [not d0])
         self.prefix.append(d0)
         self.pos += 1
+        if r == "unsat":
+            self.implied += 1
         self.s.add(cond if d0 else z3.Not(cond))
         self.assumptions.append(cond if d0 else z3.Not(cond))
+        self.decided[cond.get_id()] = d0
+        self._keep.append(cond)
         return d0
 
     def realize(self, z: Any, cap: int = 80) -> Fraction:
@@ -346,6 +359,13 @@ class SymBool:
         return "SymBool"
 
 
+def _nonfinite_float(o: Any) -> bool:
+    t = type(o)
+    if t is SymNum or t is SymInt or t is SymBool:
+        return False
+    return isinstance(o, float) and (o != o or o in (float("inf"), float("-inf")))
+
+
 def _tag_and(a: Any, b: Any) -> Any:
     if a is True:
         return b
@@ -427,7 +447,7 @@ class SymNum:
         raise Unsupported(f"non-finite operand in {op}")
 
     def _bin(self, o: Any, f: Callable[[Any, Any], Any], int_closed: bool = True, swap: bool = False, op: str = ""):
-        if isinstance(o, float) and (o != o or o in (float("inf"), float("-inf"))):
+        if _nonfinite_float(o):
             return self._nonfinite(o, op, swap)
         lo = SymNum.lift(o)
         if lo is None:
@@ -470,7 +490,7 @@ class SymNum:
         return num / den
 
     def __truediv__(self, o):
-        if isinstance(o, float) and (o != o or o in (float("inf"), float("-inf"))):
+        if _nonfinite_float(o):
             return self._nonfinite(o, "div", False)
         lo = SymNum.lift(o)
         if lo is None:
@@ -478,7 +498,7 @@ class SymNum:
         return SymNum(self._div(self.z, lo[0]), False)
 
     def __rtruediv__(self, o):
-        if isinstance(o, float) and (o != o or o in (float("inf"), float("-inf"))):
+        if _nonfinite_float(o):
             return self._nonfinite(o, "div", True)
         lo = SymNum.lift(o)
         if lo is None:
@@ -531,7 +551,7 @@ class SymNum:
 
     # -- comparisons ----------------------------------------------------------------------------
     def _cmp(self, o: Any, f: Callable[[Any, Any], Any], default: Any):
-        if isinstance(o, float) and (o != o or o in (float("inf"), float("-inf"))):
+        if _nonfinite_float(o):
             if o != o:
                 return f(0, 1) is True and f(1, 0) is True  # only != holds against NaN
             big = 1 if o > 0 else -1
